@@ -4,7 +4,10 @@ go 1.24.0
 
 toolchain go1.24.1
 
-require github.com/pentops/j5 v0.0.0
+require (
+	github.com/iancoleman/strcase v0.3.0
+	github.com/pentops/j5 v0.0.0
+)
 
 require (
 	buf.build/gen/go/bufbuild/protovalidate/protocolbuffers/go v1.36.6-20250307204501-0409229c3780.1 // indirect
@@ -16,7 +19,6 @@ require (
 	github.com/fatih/color v1.18.0 // indirect
 	github.com/google/cel-go v0.24.1 // indirect
 	github.com/google/uuid v1.6.0 // indirect
-	github.com/iancoleman/strcase v0.3.0 // indirect
 	github.com/mattn/go-colorable v0.1.14 // indirect
 	github.com/mattn/go-isatty v0.0.20 // indirect
 	github.com/pentops/golib v0.0.0-20250107012216-1b5307b3bfe0 // indirect
